@@ -13,3 +13,25 @@ def run(spec):
     if len(out) == 1:
         return next(iter(out.values()))
     return out
+
+
+def run_all():
+    """every extractor in tools/extract_*.py (cheap: a few regex passes each)"""
+    import glob, os
+    here = os.path.dirname(os.path.abspath(__file__))
+    out = {}
+    for f in sorted(glob.glob(os.path.join(here, "extract_*.py"))):
+        n = os.path.basename(f)[len("extract_"):-3]
+        try:
+            out[n] = importlib.import_module("extract_" + n).run()
+        except Exception as e:   # an extractor must never decide a verdict
+            out[n] = {"extraction": "error", "reason": repr(e)}
+    return out
+
+
+if __name__ == "__main__":
+    import sys, os
+    sys.path.insert(0, os.path.dirname(os.path.abspath(__file__)))
+    if "--all" in sys.argv:
+        for k, v in run_all().items():
+            print(k, v)
